@@ -18,53 +18,62 @@ theorem num_inj' {a b : Int} (h : Term.num a = Term.num b) : a = b := by
 def PairNF (σ : Subst) (p : Nat × Term) : Prop :=
   σ p.1 = .var p.1 ∧ apply σ p.2 = p.2 ∧ occurs p.1 p.2 = false
 
+/-- a term that is normal under a substitution is normal under every substitution that binds fewer variables -/
+theorem normal_mono {σ σ1 : Subst} (hm : ∀ y, σ1 y = .var y → σ y = .var y) :
+    ∀ t : Term, apply σ1 t = t → apply σ t = t
+  | .var y, h => by simp only [apply] at h ⊢; exact hm y h
+  | .val _, _ => rfl
+  | .nil, _ => rfl
+  | .cons a b, h => by
+    simp only [apply, Term.cons.injEq] at h ⊢
+    exact ⟨normal_mono hm a h.1, normal_mono hm b h.2⟩
+  | .comp g a, h => by
+    simp only [apply, Term.comp.injEq, true_and] at h ⊢
+    exact normal_mono hm a h
+
+theorem PairNF.mono {σ σ1 : Subst} {p : Nat × Term} (h : PairNF σ1 p) (hm : ∀ y, σ1 y = .var y → σ y = .var y) :
+    PairNF σ p := ⟨hm _ h.1, normal_mono hm _ h.2.1, h.2.2⟩
+
 theorem unifyF_nf_aux : ∀ (n : Nat) (σ σ' : Subst) (e e' : Ext1) (u v : Term), Solved σ →
     unifyF n σ e u v = some (some (σ', e')) →
-    ∃ δ : Ext1, e' = δ ++ e ∧ (δ = [] → σ' = σ) ∧ (δ ≠ [] → ∃ p ∈ δ, PairNF σ p) := by
+    ∃ δ : Ext1, e' = δ ++ e ∧ ∀ p ∈ δ, PairNF σ p := by
   intro n
   induction n with
   | zero => intro σ σ' e e' u v _ h; simp [unifyF] at h
   | succ n ih =>
     intro σ σ' e e' u v hs h
     have st := unifyF_step hs h
-    have triv : ∃ δ : Ext1, e = δ ++ e ∧ (δ = [] → σ = σ) ∧ (δ ≠ [] → ∃ p ∈ δ, PairNF σ p) :=
-      ⟨[], rfl, fun _ => rfl, fun h => absurd rfl h⟩
+    have triv : ∃ δ : Ext1, e = δ ++ e ∧ ∀ p ∈ δ, PairNF σ p :=
+      ⟨[], rfl, fun _ h => nomatch h⟩
     cases st with
     | same x hu hv => exact triv
     | valEq a hu hv => exact triv
     | nilnil hu hv => exact triv
     | bindL x hu hv ho =>
       have hx := walk_normal hs u x hu
-      exact ⟨[(x, apply σ v)], rfl, (fun h => by cases h), fun _ =>
-        ⟨_, List.mem_singleton.2 rfl, hx, apply_apply_solved hs v, ho⟩⟩
+      exact ⟨[(x, apply σ v)], rfl, fun p hp => by
+        simp only [List.mem_singleton] at hp; subst hp; exact ⟨hx, apply_apply_solved hs v, ho⟩⟩
     | bindR y hv hu ho =>
       have hy := walk_normal hs v y hv
-      exact ⟨[(y, apply σ u)], rfl, (fun h => by cases h), fun _ =>
-        ⟨_, List.mem_singleton.2 rfl, hy, apply_apply_solved hs u, ho⟩⟩
+      exact ⟨[(y, apply σ u)], rfl, fun p hp => by
+        simp only [List.mem_singleton] at hp; subst hp; exact ⟨hy, apply_apply_solved hs u, ho⟩⟩
     | consOk h1 t1 h2 t2 σ1 e1 _ hu hv hh ht =>
       obtain ⟨a1, _, _⟩ := unifyF_sound_aux _ _ _ _ _ _ _ hs hh
-      obtain ⟨δ1, he1, hz1, hn1⟩ := ih _ _ _ _ _ _ hs hh
-      obtain ⟨δ2, he2, hz2, hn2⟩ := ih _ _ _ _ _ _ a1 ht
-      refine ⟨δ2 ++ δ1, by rw [he2, he1, List.append_assoc], fun hnil => ?_, fun hne => ?_⟩
-      · have h1 : δ1 = [] := (List.append_eq_nil_iff.1 hnil).2
-        have h2 : δ2 = [] := (List.append_eq_nil_iff.1 hnil).1
-        rw [hz2 h2, hz1 h1]
-      · by_cases h1 : δ1 = []
-        · have hσ1 := hz1 h1
-          have h2 : δ2 ≠ [] := fun e2 => hne (by rw [e2, h1]; rfl)
-          obtain ⟨p, hp, hpn⟩ := hn2 h2
-          exact ⟨p, List.mem_append.2 (.inl hp), by rw [hσ1] at hpn; exact hpn⟩
-        · obtain ⟨p, hp, hpn⟩ := hn1 h1
-          exact ⟨p, List.mem_append.2 (.inr hp), hpn⟩
+      obtain ⟨δ1, he1, hn1⟩ := ih _ _ _ _ _ _ hs hh
+      obtain ⟨δ2, he2, hn2⟩ := ih _ _ _ _ _ _ a1 ht
+      refine ⟨δ2 ++ δ1, by rw [he2, he1, List.append_assoc], fun p hp => ?_⟩
+      rcases List.mem_append.1 hp with hp | hp
+      · exact (hn2 p hp).mono (unifyF_unbound_aux _ _ _ _ _ _ _ hs hh)
+      · exact hn1 p hp
     | comp g a1 a2 _ hu hv ha => exact ih _ _ _ _ _ _ hs ha
 
 theorem unifyPairsF_nf_aux (n : Nat) : ∀ (ps : List (Term × Term)) (σ σ' : Subst) (e e' : Ext1), Solved σ →
     unifyPairsF n σ e ps = some (some (σ', e')) →
-    ∃ δ : Ext1, e' = δ ++ e ∧ (δ = [] → σ' = σ) ∧ (δ ≠ [] → ∃ p ∈ δ, PairNF σ p)
+    ∃ δ : Ext1, e' = δ ++ e ∧ ∀ p ∈ δ, PairNF σ p
   | [], σ, σ', e, e', _, h => by
     simp only [unifyPairsF, Option.some.injEq, Prod.mk.injEq] at h
     obtain ⟨rfl, rfl⟩ := h
-    exact ⟨[], rfl, fun _ => rfl, fun h => absurd rfl h⟩
+    exact ⟨[], rfl, fun _ h => nomatch h⟩
   | (u, v) :: ps, σ, σ', e, e', hs, h => by
     simp only [unifyPairsF] at h
     cases hu : unifyF n σ e u v with
@@ -77,24 +86,17 @@ theorem unifyPairsF_nf_aux (n : Nat) : ∀ (ps : List (Term × Term)) (σ σ' : 
         rw [hu] at h
         simp only at h
         obtain ⟨a1, _, _⟩ := unifyF_sound_aux _ _ _ _ _ _ _ hs hu
-        obtain ⟨δ1, he1, hz1, hn1⟩ := unifyF_nf_aux _ _ _ _ _ _ _ hs hu
-        obtain ⟨δ2, he2, hz2, hn2⟩ := unifyPairsF_nf_aux n ps σ1 σ' e1 e' a1 h
-        refine ⟨δ2 ++ δ1, by rw [he2, he1, List.append_assoc], fun hnil => ?_, fun hne => ?_⟩
-        · have h1 : δ1 = [] := (List.append_eq_nil_iff.1 hnil).2
-          have h2 : δ2 = [] := (List.append_eq_nil_iff.1 hnil).1
-          rw [hz2 h2, hz1 h1]
-        · by_cases h1 : δ1 = []
-          · have hσ1 := hz1 h1
-            have h2 : δ2 ≠ [] := fun e2 => hne (by rw [e2, h1]; rfl)
-            obtain ⟨p, hp, hpn⟩ := hn2 h2
-            exact ⟨p, List.mem_append.2 (.inl hp), by rw [hσ1] at hpn; exact hpn⟩
-          · obtain ⟨p, hp, hpn⟩ := hn1 h1
-            exact ⟨p, List.mem_append.2 (.inr hp), hpn⟩
-
+        obtain ⟨δ1, he1, hn1⟩ := unifyF_nf_aux _ _ _ _ _ _ _ hs hu
+        obtain ⟨δ2, he2, hn2⟩ := unifyPairsF_nf_aux n ps σ1 σ' e1 e' a1 h
+        refine ⟨δ2 ++ δ1, by rw [he2, he1, List.append_assoc], fun p hp => ?_⟩
+        rcases List.mem_append.1 hp with hp | hp
+        · exact (hn2 p hp).mono (unifyF_unbound_aux _ _ _ _ _ _ _ hs hu)
+        · exact hn1 p hp
 
 /-! ### the invariant: every stored disequality has a normal-form pair -/
 
-def HasNF (σ : Subst) (ps : Ext1) : Prop := ∃ p ∈ ps, PairNF σ p
+/-- a stored disequality in normal form: non-empty, EVERY pair normal -/
+def HasNF (σ : Subst) (ps : Ext1) : Prop := ps ≠ [] ∧ ∀ p ∈ ps, PairNF σ p
 
 /-- every stored disequality whose identity is not in `R` (those a `run_constraints` pass has still to re-run)
     has a normal-form pair under the state's substitution -/
@@ -149,19 +151,19 @@ theorem runDiseq_dnf (ord : Order) {st st' : State} {R : Nat → Prop} (hs : Sol
     (hres : State.runDiseq ord st ps = .ok st') : DNFX R st' := by
   rw [runDiseq_eq] at hres
   refine diseqResult_dnf ord h _ (fun σ' e hu hne => ?_) st' hres
-  obtain ⟨δ, he, _, hn⟩ := unifyPairsF_nf_aux _ _ _ _ _ _ hs hu
+  obtain ⟨δ, he, hn⟩ := unifyPairsF_nf_aux _ _ _ _ _ _ hs hu
   simp only [List.append_nil] at he
   subst he
-  exact hn hne
+  exact ⟨hne, hn⟩
 
 theorem disunify_dnf (ord : Order) {st st' : State} {R : Nat → Prop} (hs : Solved st.σ) (h : DNFX R st) (u v : Term)
     (hres : State.disunify ord st u v = .ok st') : DNFX R st' := by
   rw [disunify_eq] at hres
   refine diseqResult_dnf ord h _ (fun σ' e hu hne => ?_) st' hres
-  obtain ⟨δ, he, _, hn⟩ := unifyF_nf_aux _ _ _ _ _ _ _ hs hu
+  obtain ⟨δ, he, hn⟩ := unifyF_nf_aux _ _ _ _ _ _ _ hs hu
   simp only [List.append_nil] at he
   subst he
-  exact hn hne
+  exact ⟨hne, hn⟩
 
 /-- one iteration of the `run_constraints` loop: the re-run constraint leaves the set of pending ones -/
 theorem snapStep_dnf (rc : State → Res State) (ord : Order) {st s1 : State} {R : Nat → Prop} (p : Nat × Cst)
@@ -353,9 +355,11 @@ theorem dnf_sat {st : State} (hs : Solved st.σ) (hd : DNF st) :
     | _ => []).sum
   refine ⟨fun y => apply (bigVal N) (st.σ y), ⟨fun s => ?_, fun q hq ps he => ?_⟩, fun t => ?_⟩
   · rw [apply_comp, apply_comp, apply_apply_solved hs]
-  · rcases hd q hq ps he with f | ⟨p, hp, hnf⟩
+  · rcases hd q hq ps he with f | ⟨hne, hall⟩
     · exact f.elim
-    · refine ⟨p, hp, pair_differs hnf (le_sum_of_mem ?_)⟩
+    · obtain ⟨p, hp⟩ := List.exists_mem_of_ne_nil ps hne
+      have hnf := hall p hp
+      refine ⟨p, hp, pair_differs hnf (le_sum_of_mem ?_)⟩
       refine List.mem_flatMap.2 ⟨q, hq, ?_⟩
       rw [he]
       exact List.mem_map_of_mem hp
@@ -372,5 +376,190 @@ theorem postAll_no_panic_of_good (ord : Order) (ho : OrderOK ord) : ∀ (st : St
     | fail => simp [Res.bind]
     | fuel => simp [Res.bind]
     | panic s' => exact absurd h1 (postAtom_no_panic ord ho st a hg s')
+
+
+/-! ### projection: constraints on hidden variables never restrict the visible ones -/
+
+/-- the numeral `n` occurs in the term -/
+def occNum (n : Int) : Term → Bool
+  | .val (.num m) => m == n
+  | .cons h t => occNum n h || occNum n t
+  | .comp _ a => occNum n a
+  | _ => false
+
+/-- an upper bound (exclusive) on the non-negative numerals of a term -/
+def maxNum : Term → Nat
+  | .val (.num m) => m.toNat + 1
+  | .cons h t => max (maxNum h) (maxNum t)
+  | .comp _ a => maxNum a
+  | _ => 0
+
+theorem occNum_lt {n : Nat} : ∀ {t : Term}, occNum (n : Int) t = true → n < maxNum t
+  | .val (.num m), h => by
+    simp only [occNum, beq_iff_eq] at h
+    simp only [maxNum]; omega
+  | .val (.bool _), h => by simp [occNum] at h
+  | .val (.chr _), h => by simp [occNum] at h
+  | .val (.str _), h => by simp [occNum] at h
+  | .var _, h => by simp [occNum] at h
+  | .nil, h => by simp [occNum] at h
+  | .cons a b, h => by
+    simp only [occNum, Bool.or_eq_true] at h
+    simp only [maxNum]
+    rcases h with h | h
+    · have := occNum_lt h; omega
+    · have := occNum_lt h; omega
+  | .comp _ a, h => by
+    simp only [occNum] at h
+    simp only [maxNum]
+    exact occNum_lt h
+
+/-- the valuation that keeps `θ` on the visible variables `V` and gives every other variable `z` the number `N + z` -/
+def mixVal (V : List Nat) (θ : Subst) (N : Nat) : Subst :=
+  fun z => if z ∈ V then θ z else Term.num ((N + z : Nat) : Int)
+
+theorem occNum_apply_mix {V : List Nat} {θ : Subst} {N h : Nat} (hh : h ∉ V) :
+    ∀ {t : Term}, h ∈ t.vars → occNum ((N + h : Nat) : Int) (apply (mixVal V θ N) t) = true
+  | .var y, hm => by
+    simp only [Term.vars, List.mem_singleton] at hm
+    subst hm
+    simp [apply, mixVal, hh, occNum, Term.num]
+  | .val _, hm => by simp [Term.vars] at hm
+  | .nil, hm => by simp [Term.vars] at hm
+  | .cons a b, hm => by
+    simp only [Term.vars, List.mem_append] at hm
+    simp only [apply, occNum, Bool.or_eq_true]
+    rcases hm with hm | hm
+    · exact .inl (occNum_apply_mix hh hm)
+    · exact .inr (occNum_apply_mix hh hm)
+  | .comp _ a, hm => by
+    simp only [Term.vars] at hm
+    simp only [apply, occNum]
+    exact occNum_apply_mix hh hm
+
+theorem apply_agree {f g : Subst} : ∀ {t : Term}, (∀ y ∈ t.vars, f y = g y) → apply f t = apply g t
+  | .var y, h => by simp only [apply]; exact h y (by simp [Term.vars])
+  | .val _, _ => rfl
+  | .nil, _ => rfl
+  | .cons a b, h => by
+    simp only [apply]
+    rw [apply_agree fun y hy => h y (by simp [Term.vars, hy]), apply_agree fun y hy => h y (by simp [Term.vars, hy])]
+  | .comp _ a, h => by
+    simp only [apply]
+    rw [apply_agree fun y hy => h y (by simpa [Term.vars] using hy)]
+
+/-- a normal-form pair that mentions a HIDDEN variable is different under the mixed valuation -/
+theorem pair_differs_hidden {σ θ : Subst} {V : List Nat} {N : Nat} {p : Nat × Term} (hnf : PairNF σ p)
+    (hV : ∀ y ∈ V, maxNum (θ y) ≤ N) (hN : maxNum p.2 ≤ N)
+    (hid : p.1 ∉ V ∨ ∃ h ∈ p.2.vars, h ∉ V) :
+    apply (fun y => apply (mixVal V θ N) (σ y)) (.var p.1) ≠ apply (fun y => apply (mixVal V θ N) (σ y)) p.2 := by
+  obtain ⟨x, t⟩ := p
+  obtain ⟨hx, ht, ho⟩ := hnf
+  simp only at hx ht ho hN hid
+  rw [apply_comp, apply_comp, ht]
+  have hl : apply (mixVal V θ N) (apply σ (.var x)) = mixVal V θ N x := by simp only [apply, hx]
+  rw [hl]
+  by_cases hxV : x ∈ V
+  · -- the key is visible: a hidden variable occurs in the term
+    obtain ⟨h, hh, hhV⟩ := hid.resolve_left (fun a => a hxV)
+    have h1 := occNum_apply_mix (θ := θ) (N := N) hhV hh
+    intro e
+    rw [← e] at h1
+    simp only [mixVal, hxV, if_true] at h1
+    have := occNum_lt h1
+    have := hV x hxV
+    omega
+  · -- the key is hidden: its value is a number of its own
+    simp only [mixVal, hxV, if_false]
+    cases t with
+    | var y =>
+      have hxy : x ≠ y := by simpa [occurs] using ho
+      simp only [apply]
+      by_cases hyV : y ∈ V
+      · simp only [mixVal, hyV, if_true]
+        intro e
+        have h1 : occNum ((N + x : Nat) : Int) (θ y) = true := by rw [← e]; simp [occNum, Term.num]
+        have := occNum_lt h1
+        have := hV y hyV
+        omega
+      · simp only [mixVal, hyV, if_false]
+        intro e
+        have := num_inj' e
+        omega
+    | val c =>
+      cases c with
+      | num m =>
+        simp only [apply]
+        intro e
+        have hm : ((N + x : Nat) : Int) = m := by simpa [Term.num] using e
+        simp only [maxNum] at hN
+        omega
+      | _ => simp [apply, Term.num]
+    | nil => simp [apply, Term.num]
+    | cons a b => simp [apply, Term.num]
+    | comp g a => simp [apply, Term.num]
+
+/-- the variables a disequality mentions -/
+def diseqVars (ps : Ext1) : List Nat := ps.flatMap fun p => p.1 :: p.2.vars
+
+/-- PROJECTION: in a good state whose disequalities are in normal form, let `θ` give values to the variables
+    `V` such that every stored disequality that mentions ONLY variables of `V` holds under `θ`; then `θ` extends to
+    a valuation the state describes, with the same values on the unbound variables of `V` — disequalities that
+    mention a hidden variable never restrict the visible ones (the universe is infinite) -/
+theorem dnf_project {st : State} (hs : Solved st.σ) (hd : DNF st) (V : List Nat) (θ : Subst)
+    (hvis : ∀ q ∈ st.store, ∀ ps, q.2 = .diseq ps → (∀ y ∈ diseqVars ps, y ∈ V) → DiseqHolds θ ps) :
+    ∃ γ : Subst, StateSem γ st ∧ ∀ y ∈ V, st.σ y = .var y → γ y = θ y := by
+  let N : Nat := (V.map fun y => maxNum (θ y)).sum +
+    (st.store.flatMap fun q => match q.2 with
+      | .diseq ps => ps.map fun p => maxNum p.2
+      | _ => []).sum
+  have hV : ∀ y ∈ V, maxNum (θ y) ≤ N := fun y hy => by
+    have := le_sum_of_mem (List.mem_map_of_mem (f := fun y => maxNum (θ y)) hy)
+    omega
+  refine ⟨fun y => apply (mixVal V θ N) (st.σ y), ⟨fun s => ?_, fun q hq ps he => ?_⟩, fun y hy hfree => ?_⟩
+  · rw [apply_comp, apply_comp, apply_apply_solved hs]
+  · rcases hd q hq ps he with f | ⟨hne, hall⟩
+    · exact f.elim
+    · have hbound : ∀ p ∈ ps, maxNum p.2 ≤ N := fun p hp => by
+        have : maxNum p.2 ∈ (st.store.flatMap fun q => match q.2 with
+            | .diseq ps => ps.map fun p => maxNum p.2
+            | _ => []) := by
+          refine List.mem_flatMap.2 ⟨q, hq, ?_⟩
+          rw [he]
+          exact List.mem_map_of_mem (f := fun p : Nat × Term => maxNum p.2) hp
+        have := le_sum_of_mem this
+        omega
+      by_cases hallV : ∀ y ∈ diseqVars ps, y ∈ V
+      · -- a visible disequality: it holds under θ, and the two valuations agree on its variables
+        obtain ⟨p, hp, hne'⟩ := hvis q hq ps he hallV
+        refine ⟨p, hp, ?_⟩
+        have hnf := hall p hp
+        have hpV : p.1 ∈ V := hallV _ (List.mem_flatMap.2 ⟨p, hp, List.mem_cons_self ..⟩)
+        have htV : ∀ y ∈ p.2.vars, y ∈ V := fun y hy =>
+          hallV _ (List.mem_flatMap.2 ⟨p, hp, List.mem_cons_of_mem _ hy⟩)
+        rw [apply_comp, apply_comp, hnf.2.1]
+        have e1 : apply (mixVal V θ N) (apply st.σ (.var p.1)) = apply θ (.var p.1) := by
+          simp only [apply, hnf.1, mixVal, hpV, if_true]
+        have e2 : apply (mixVal V θ N) p.2 = apply θ p.2 :=
+          apply_agree fun y hy => by simp only [mixVal, htV y hy, if_true]
+        rw [e1, e2]
+        exact hne'
+      · -- a disequality that mentions a hidden variable: that pair is different
+        have : ∃ p ∈ ps, p.1 ∉ V ∨ ∃ h ∈ p.2.vars, h ∉ V := by
+          apply Classical.byContradiction
+          intro hcon
+          apply hallV
+          intro y hy
+          obtain ⟨p, hp, hyp⟩ := List.mem_flatMap.1 hy
+          apply Classical.byContradiction
+          intro hyV
+          apply hcon
+          refine ⟨p, hp, ?_⟩
+          rcases List.mem_cons.1 hyp with rfl | hyt
+          · exact .inl hyV
+          · exact .inr ⟨y, hyt, hyV⟩
+        obtain ⟨p, hp, hid⟩ := this
+        exact ⟨p, hp, pair_differs_hidden (hall p hp) hV (hbound p hp) hid⟩
+  · simp only [hfree, apply, mixVal, hy, if_true]
 
 end Pv
